@@ -542,7 +542,8 @@ pub fn eval_c20_knn(item: &(DVec3, DVec3, Vec<DVec3>, String)) -> Eval {
     let n = pts.len();
     let mut h = Fnv::new();
     let wmin = width.x.min(width.y).min(width.z);
-    for cw in [0.3, 0.5, 1.0, 5.0] {
+    let cws: Vec<f64> = if id.starts_with("knnfine") { vec![0.5 / wmin] } else { vec![0.3, 0.42, 0.5, 0.77, 1.0, 5.0] };
+    for cw in cws {
         let max_cell_width = cw * wmin;
         for k in 0..n {
             let case = format!("{}|cellwidth={}|k={}", id, cw, k);
@@ -741,6 +742,32 @@ pub fn run_c20(run: &mut Run) {
         let subs: Vec<Vec<usize>> = subsets_upto(gp.len(), kmax).into_iter().filter(|s| s.len() >= 2).collect();
         let items: Vec<(DVec3, DVec3, Vec<DVec3>, String)> = subs.iter().map(|s| (anchor, width, s.iter().map(|&i| gp[i]).collect(), format!("knn|{}|G|{}", bn, idx_list(s)))).collect();
         run.family(format!("knn box {} generic pool sizes 2..{}", bn, kmax), items.len() as u64);
+        run.explore(&items, eval_c20_knn, |i| J::s(i.3.clone()));
+    }
+    // fine position alphabet in a plane: particles close to cell faces, neighbours one and two cells away
+    // (the ring termination and pruning bounds depend on the distance to the cell face per axis)
+    let nf = if thorough { 14 } else { 10 };
+    for (bn, width, (ax_a, ax_b)) in [
+        ("narrow-y", v3(1.5, 1.2, 1.5), (0usize, 1usize)),
+        ("narrow-y", v3(1.5, 1.2, 1.5), (1, 2)),
+        ("narrow-z", v3(1.5, 1.5, 1.2), (0, 2)),
+        ("narrow-z", v3(1.5, 1.5, 1.2), (1, 2)),
+        ("narrow-x", v3(1.2, 1.5, 1.5), (0, 1)),
+        ("narrow-x", v3(1.2, 1.5, 1.5), (0, 2)),
+    ] {
+        let anchor = DVec3::ZERO;
+        let mut pool = vec![];
+        for i in 0..nf {
+            for j in 0..nf {
+                let mut p = 0.5 * width;
+                set_comp(&mut p, ax_a, (i as f64 + 0.25) / nf as f64 * comp(width, ax_a));
+                set_comp(&mut p, ax_b, (j as f64 + 0.25) / nf as f64 * comp(width, ax_b));
+                pool.push(p);
+            }
+        }
+        let subs: Vec<Vec<usize>> = subsets_upto(pool.len(), 3).into_iter().filter(|s| s.len() == 3).collect();
+        let items: Vec<(DVec3, DVec3, Vec<DVec3>, String)> = subs.iter().map(|s| (anchor, width, s.iter().map(|&i| pool[i]).collect(), format!("knnfine|{}|plane{}{}|{}", bn, ax_a, ax_b, idx_list(s)))).collect();
+        run.family(format!("knn fine lattice {}x{} in plane ({},{}) of box {}, all 3-sets, cell width 0.5", nf, nf, ax_a, ax_b, bn), items.len() as u64);
         run.explore(&items, eval_c20_knn, |i| J::s(i.3.clone()));
     }
     // bounding spheres
